@@ -630,6 +630,20 @@ def execute(plan, prop, out, tr):
                     pattern.append("raise")
                     continue
                 tk = trec[len([x for x in srec[:k] if not x.get("raised")])]
+                if not c["kernel"] and weight is None:
+                    # what the strategy is told: the residual at the parameters the call was given (computed once per call;
+                    # without kernel and weight that is the plain model residual), not something that moved with the
+                    # parameters while trials were made
+                    cur_ = om.snapshot(model); om.restore(model, p_s)
+                    Rh = torch.cat([r_.reshape(-1) for r_ in _residuals(model, data, targets)])
+                    om.restore(model, cur_)
+                    Rt = tk["R"].reshape(-1)
+                    if Rt.shape != Rh.shape or not bool(((Rt - Rh).abs() <= tight * (1 + Rh.abs())).all()):
+                        raise Violation("C08.strategy-args", "call %d trial %d: the residual handed to the strategy is not the "
+                                        "residual at the parameters the call started from (max difference %.3e)" %
+                                        (ci, k, float((Rt - Rh).abs().max()) if Rt.shape == Rh.shape else float("nan")),
+                                        ci, "strategy-args:R")
+                    out.probe("strategy-residual-checked")
                 L_k = hloss(tk["trial"])
                 if math.isnan(L_k) or L_k == -math.inf:
                     out.declined("trial-loss-nonfinite"); pattern.append("nan"); break
